@@ -101,7 +101,9 @@ RecvSpanWith(listener, t, cr, sv, nm) ==
           /\ UNCHANGED <<upQ, buf, dec, drate>>
      ELSE \* the collector: late span of a remembered decision, else buffered
           /\ Route(id, "collector")
-          /\ IF known
+          \* processSpan looks the trace up in the buffer BEFORE the decision memory: a span of a trace that is still
+          \* buffered joins it even if a stress-relief decision was recorded for the trace meanwhile
+          /\ IF known /\ buf[t] = {}
              THEN /\ IF dec[t] \in {"kept", "skept"}
                      THEN upQ' = upQ \cup {Rec(id, FALSE, FALSE, crr * drate[t])}
                      ELSE upQ' = upQ
